@@ -336,7 +336,7 @@ func sendPaths(c *Check, rule string) (*ssa.Function, []Path) {
 		},
 		KeepAtom: func(a Atom) bool {
 			s := a.String()
-			for _, k := range []string{"Interface.Store@", "ReceiveOnly", "loop:err", "loop:i", "StorageRetry", "SleepContext@", "DumpData@", "$bound@", "Info@", "dyn:"} {
+			for _, k := range []string{"Interface.Store@", "ReceiveOnly", "loop:", "StorageRetry", "SleepContext@", "DumpData@", "$bound@", "Info@", "dyn:"} {
 				if strings.Contains(s, k) {
 					return true
 				}
@@ -375,7 +375,7 @@ func ruleStoreOrFail(c *Check, ruleStore, ruleCommitted, ruleRO string) {
 		}
 		for _, sc := range callsOf(p, "syncer/cleaner.(*Worker).SetCommitted") {
 			nCommit++
-			if le, lf := condTruth(p, "isnil(loop:err@", -1); lf && le && len(stores) == 0 {
+			if le, lf := condTruth(p, "isnil(loop:", -1); lf && le && len(stores) == 0 {
 				continue // zero-iteration exit of the retry loop, excluded by Config.Check (checked under the store-or-fail rule)
 			}
 			if !succeeded || len(sc.Args) != 2 || !strings.HasSuffix(sc.Args[1], ".lastByInstance") {
@@ -405,7 +405,7 @@ func ruleStoreOrFail(c *Check, ruleStore, ruleCommitted, ruleRO string) {
 			nOK++
 		default:
 			// loop left by its condition: only legal continuation is err != nil
-			le, lf := condTruth(p, "isnil(loop:err@", -1)
+			le, lf := condTruth(p, "isnil(loop:", -1)
 			if lf && le {
 				nExh++ // zero-iteration exit with err == nil: excluded by Config.Check (retry count >= 1), checked below
 				continue
@@ -523,7 +523,7 @@ func ruleLastByInstanceWriters(c *Check, rule string) {
 			if e.Kind == "mapupdate" {
 				nw++
 				tr, f := condTruth(p, "isnil((*lmdb.Env).Update@", -1)
-				if !f || !tr || !strings.HasSuffix(e.Val, ".NameInfo.Timestamp") || e.Key != "param:instance" {
+				if !f || !tr || !strings.HasSuffix(e.Val, ".NameInfo.Timestamp") || e.Key != param(c.P.Func(fnLoadOnce), 3) {
 					bad++
 					c.Bad(rule, fnLoadOnce+"/lastByInstance-after-commit", "lastByInstance is updated on a path where the merge transaction did not commit successfully, or not with (instance, update.NameInfo.Timestamp)", c.P.InstrPos(e.Instr), describe(c, p))
 				}
